@@ -449,12 +449,12 @@ pub fn run(ctx: &mut Ctx) {
         ("all2", 16),
         ("all3", 512),
         ("all4", if q { 0 } else { 65_536 }),
-        ("er-small", if q { 3_000 } else { 60_000 }),
-        ("er", if q { 1_500 } else { 30_000 }),
-        ("lattice", if q { 1_000 } else { 20_000 }),
-        ("dense", if q { 800 } else { 15_000 }),
-        ("dup", if q { 800 } else { 15_000 }),
-        ("threshold", if q { 320 } else { 4_000 }),
+        ("er-small", if q { 6_000 } else { 100_000 }),
+        ("er", if q { 3_000 } else { 50_000 }),
+        ("lattice", if q { 2_000 } else { 30_000 }),
+        ("dense", if q { 1_600 } else { 25_000 }),
+        ("dup", if q { 1_600 } else { 25_000 }),
+        ("threshold", if q { 640 } else { 8_000 }),
     ];
     let mut gi = 0u64;
     for (family, count) in schedule {
